@@ -93,6 +93,7 @@ def gen_problem(rng, t):
             if b["type"] == 0:
                 b["A_1"] = rng.choice([1e-3, -5e-4])
                 b["A_2"] = rng.choice([0.0, 1e-5])
+    gen.use_all_bdry(p, (2,))             # the mixed condition, if the problem defines one, is carried by a line
     p.harmonic = harmonic
     return p
 
